@@ -40,6 +40,11 @@ CLAIMS = {
   text="Structural necessary conditions of exact comparison: no three-way result from the sign of a 64-bit integer difference (unless both operands are widened from <=32 bits or lengths) or of an unsigned difference; an IsNaN test of every float operand dominates each sign-of-float-difference; CompareFunction maps each operator to the matching predicate on the three-way result and the unordered codes to false except !=; Compare routes each numeric type to its routine and the numeric type-pair matrix is symmetric; in the numeric tower an arm with one float operand converts the other with float64() and uses the float routine, integer arms stay integer; every integer / and % with a non-constant divisor is reachable only behind the builtin recover barrier (division by zero is an error). Does not decide numerical results, Pow, or wrap-around values.",
   note="Trusts go/ssa and the AST shapes of the operator switch / type switches (fail closed when not recognised). One exemption: symbol-number difference in compareSymbol.",
   ref="DESIGN.md §3 C07"),
+ "C17": dict(
+  technique="who-writes table + dominance / path analysis over go/ssa of the field-check, record-check, pointer-write and re-binding routines",
+  text="Structural necessary conditions of type enforcement on every write: the bucket map is written only by HashSet/HashDelete/CloneFrom/MakeHash (all write routes funnel through HashSet); in HashSet the field type check dominates every mutation, its error (other than the not-a-symbol sentinel) is returned from a branch that mutates nothing; in TypeCheckField an undeclared field and a type mismatch reach an error on every path except the HasPrefix-guarded empty-slice exception; MakeHash returns the errors of the initial HashSets and of TypeCheckRecord, which checks every key; CloneFrom through a pointer is guarded by registered-type identity; typed re-binding stores only under an acceptance test and otherwise ends in an error. Does not decide that the type comparison is right for every field type, nor redefinition semantics.",
+  note="Trusts go/ssa; fails closed when the routines lose the shapes read today.",
+  ref="DESIGN.md §3 C17"),
 }
 NA_DEFAULT="rules not built yet (build in progress; see DESIGN.md §7)"
 NA = {}
